@@ -1517,3 +1517,301 @@ Example history_nonvacuous :
   /\ cannot_send c = false /\ no_dotdot (lstrip_slash s_items) = true
   /\ expected_path c s_items = s_api ++ s_items.
 Proof. cbv zeta. repeat split; vm_compute; reflexivity. Qed.
+
+(* ------------------------------------------------------------------------------------------------ *)
+(* H. exchanges: what a transport carries from one exchange to the next                              *)
+(* ------------------------------------------------------------------------------------------------ *)
+Lemma slot_eqb_eq a b : slot_eqb a b = true <-> a = b.
+Proof.
+  destruct a as [ta sa], b as [tb sb]. unfold slot_eqb. cbn [fst snd]. split.
+  - intros H. apply andb_true_iff in H. destruct H as [H1 H2]. apply transport_eqb_eq in H1. subst tb.
+    destruct sa as [x|], sb as [y|]; try discriminate; [|reflexivity]. apply N.eqb_eq in H2. subst y. reflexivity.
+  - intros H. injection H as -> ->. rewrite transport_eqb_refl. destruct sb; [apply N.eqb_refl | reflexivity].
+Qed.
+Lemma slot_eqb_refl a : slot_eqb a a = true.
+Proof. apply slot_eqb_eq. reflexivity. Qed.
+Lemma slot_eqb_neq a b : a <> b -> slot_eqb a b = false.
+Proof. intros H. destruct (slot_eqb a b) eqn:E; [|reflexivity]. apply slot_eqb_eq in E. contradiction. Qed.
+
+Lemma jar_get_put k k' j js : jar_get k (jar_put k' j js) = if slot_eqb k k' then j else jar_get k js.
+Proof.
+  induction js as [|[k0 j0] js IH]; cbn [jar_put jar_get].
+  - destruct (slot_eqb k k'); reflexivity.
+  - destruct (slot_eqb k' k0) eqn:E0; cbn [jar_get].
+    + apply slot_eqb_eq in E0. subst k0. destruct (slot_eqb k k'); reflexivity.
+    + rewrite IH. destruct (slot_eqb k k0) eqn:E1; [|reflexivity].
+      apply slot_eqb_eq in E1. subst k0. destruct (slot_eqb k k') eqn:E2; [|reflexivity].
+      apply slot_eqb_eq in E2. subst k'. rewrite slot_eqb_refl in E0. discriminate.
+Qed.
+
+(* an exchange touches the jar of its own client object only *)
+Lemma xstep_other rule e js ev k : xslot rule ev <> Some k -> jar_get k (fst (xstep rule e js ev)) = jar_get k js.
+Proof.
+  intros H. unfold xstep. destruct (xslot rule ev) as [k'|]; cbn [fst]; [|reflexivity].
+  rewrite jar_get_put. rewrite slot_eqb_neq; [reflexivity|]. intros ->. apply H. reflexivity.
+Qed.
+Lemma xstep_same rule e js1 js2 ev k : xslot rule ev = Some k -> jar_get k js1 = jar_get k js2 ->
+  jar_get k (fst (xstep rule e js1 ev)) = jar_get k (fst (xstep rule e js2 ev))
+  /\ snd (xstep rule e js1 ev) = snd (xstep rule e js2 ev).
+Proof.
+  intros H A. unfold xstep. rewrite H. cbn [fst snd]. rewrite !jar_get_put, slot_eqb_refl, A. split; reflexivity.
+Qed.
+
+Lemma xexec_filter rule e ev k h : xslot rule ev = Some k -> forall js1 js2, jar_get k js1 = jar_get k js2 ->
+  jar_get k (xexec rule e js1 h) = jar_get k (xexec rule e js2 (filter (same_slot rule ev) h)).
+Proof.
+  intros K. induction h as [|ev' h IH]; intros js1 js2 A; cbn [xexec filter]; [exact A|].
+  unfold same_slot at 1. rewrite K. destruct (xslot rule ev') as [k'|] eqn:E'.
+  - destruct (slot_eqb k k') eqn:E.
+    + apply slot_eqb_eq in E. subst k'. cbn [xexec]. apply IH. apply (xstep_same rule e js1 js2 ev' k E' A).
+    + apply IH. rewrite xstep_other; [exact A|]. rewrite E'. intros H. injection H as ->. rewrite slot_eqb_refl in E. discriminate.
+  - apply IH. rewrite xstep_other; [exact A|]. rewrite E'. discriminate.
+Qed.
+
+(* NON-INTERFERENCE, any client rule: what the application receives in an exchange is decided by the exchanges that went
+   through the same long-lived client object; everything else in the history - every other exchange, whatever the
+   applications answered - can be deleted *)
+Lemma exchange_noninterference rule e js h ev :
+  snd (xstep rule e (xexec rule e js h) ev) = snd (xstep rule e (xexec rule e js (filter (same_slot rule ev) h)) ev).
+Proof.
+  unfold xstep. destruct (xslot rule ev) as [k|] eqn:K; cbn [snd]; [|reflexivity].
+  rewrite (xexec_filter rule e ev k h K js js eq_refl). reflexivity.
+Qed.
+
+Lemma fresh_no_slot ev : no_session ev = true \/ xtransport ev = TAsgi -> xslot fresh_clients ev = None.
+Proof.
+  intros [H | H]; destruct ev as [t r | t [i|] c r]; cbn in *; try discriminate; try reflexivity;
+    try (destruct t; reflexivity). subst t. reflexivity.
+Qed.
+(* THE CODE: without a session object of the user (and always on the ASGI transport) the request of an exchange is the
+   request of that exchange alone, after every history and from every state of the session objects *)
+Lemma exchange_alone e js h ev : no_session ev = true \/ xtransport ev = TAsgi ->
+  snd (xstep fresh_clients e (xexec fresh_clients e js h) ev) = xalone e ev.
+Proof. intros H. unfold xstep. rewrite (fresh_no_slot ev H). reflexivity. Qed.
+Lemma exchange_run_alone e h : forall js, forallb no_session h = true -> xrun fresh_clients e js h = map (xalone e) h.
+Proof.
+  induction h as [|ev h IH]; intros js H; [reflexivity|]. cbn [forallb] in H. apply andb_true_iff in H. destruct H as [H1 H2].
+  cbn [xrun map]. unfold xstep. rewrite (fresh_no_slot ev (or_introl H1)). cbn [fst snd]. rewrite (IH js H2). reflexivity.
+Qed.
+(* two histories, two answers of the application: the same exchange afterwards delivers the same request *)
+Lemma exchange_independent e js1 js2 h1 h2 ev : no_session ev = true \/ xtransport ev = TAsgi ->
+  snd (xstep fresh_clients e (xexec fresh_clients e js1 h1) ev) = snd (xstep fresh_clients e (xexec fresh_clients e js2 h2) ev).
+Proof. intros H. rewrite !exchange_alone by exact H. reflexivity. Qed.
+
+(* ---- what the request of an exchange carries *)
+Lemma d_set_keys_In {A} x k (v : A) d : In x (map fst (d_set k v d)) -> x = k \/ In x (map fst d).
+Proof.
+  induction d as [|[k0 v0] d IH]; cbn [d_set map fst In].
+  - intros [H | []]. left. symmetry. exact H.
+  - destruct (str_eqb k k0) eqn:E; cbn [map fst In]; [tauto|]. intros [H | H]; [tauto|]. destruct (IH H); tauto.
+Qed.
+Lemma d_set_keys_nodup {A} k (v : A) d : NoDup (map fst d) -> NoDup (map fst (d_set k v d)).
+Proof.
+  induction d as [|[k0 v0] d IH]; cbn [d_set map fst]; intros H.
+  - constructor; [intros [] | constructor].
+  - destruct (str_eqb k k0) eqn:E; cbn [map fst]; [exact H|]. inversion H as [|? ? H1 H2]. subst.
+    constructor; [|apply IH; exact H2]. intros Hin. destruct (d_set_keys_In _ _ _ _ Hin) as [-> | Hin']; [|contradiction].
+    rewrite str_eqb_refl in E. discriminate.
+Qed.
+Lemma d_update_keys_nodup {A} (new d : list (str * A)) : NoDup (map fst d) -> NoDup (map fst (d_update d new)).
+Proof.
+  revert d. induction new as [|[k v] new IH]; intros d H; [exact H|].
+  unfold d_update. cbn [fold_left fst snd]. change (fold_left _ new ?x) with (d_update x new).
+  apply IH. apply d_set_keys_nodup. exact H.
+Qed.
+Lemma d_update_nil {A} (l : list (str * A)) : NoDup (map fst l) -> d_update [] l = l.
+Proof. intros H. apply (d_update_nodup l []). exact H. Qed.
+Lemma xown_nodup c : dict_ok (xc_cookies c) = true -> NoDup (map fst (xown c)).
+Proof. intros H. apply d_update_keys_nodup. apply nodup_strs_spec. exact H. Qed.
+(* a client that has seen nothing sends the cookies of the case, in the order of the case *)
+Lemma wire_cookies_alone t c : dict_ok (xc_cookies c) = true -> wire_cookies t (xown c) [] = xown c.
+Proof. intros H. destruct t; cbn [wire_cookies app]; try reflexivity. apply d_update_nil. apply xown_nodup. exact H. Qed.
+
+Lemma ci_get_remove_same c h : ci_get c (ci_remove c h) = None.
+Proof.
+  induction h as [|[k0 v0] h IH]; [reflexivity|]. unfold ci_remove. cbn [filter fst].
+  destruct (ci_eqb c k0) eqn:E; cbn [negb]; [exact IH|]. cbn [ci_get]. rewrite E. exact IH.
+Qed.
+Lemma ci_get_rev_none k h : ci_get k h = None -> ci_get k (rev h) = None.
+Proof.
+  induction h as [|[k0 v0] h IH]; [reflexivity|]. cbn [ci_get rev]. destruct (ci_eqb k k0) eqn:E; [discriminate|].
+  intros H. rewrite ci_get_app, (IH H). cbn [ci_get]. rewrite E. reflexivity.
+Qed.
+Lemma ci_remove_In x c h : In x (ci_remove c h) -> In x h.
+Proof. unfold ci_remove. intros H. apply filter_In in H. tauto. Qed.
+
+
+(* lookup of Cookie in what the application receives, for a client with the jar [jar] *)
+Lemma wire_cookie_lookup e t host prep own jar :
+  ci_get s_cookie prep = None -> ci_get s_cookie (xe_std e) = None ->
+  ci_get s_cookie (wire e t host prep own jar) = cookie_header_of (wire_cookies t own jar).
+Proof.
+  intros Hp Hs. unfold cookie_header_of.
+  assert (Hreq : ci_get s_cookie (ci_update (xe_std e) prep) = None).
+  { rewrite ci_get_update, (ci_get_rev_none _ _ Hp). exact Hs. }
+  assert (Hsame : ci_get s_cookie [(s_cookie, render_cookies (wire_cookies t own jar))] = Some (render_cookies (wire_cookies t own jar))).
+  { cbn [ci_get]. rewrite ci_eqb_refl. reflexivity. }
+  destruct t; unfold wire.
+  - rewrite ci_get_setdefault, Hreq. destruct (is_nil (wire_cookies TRequests own jar)).
+    + rewrite Hreq. reflexivity.
+    + rewrite ci_get_app, Hreq, Hsame. reflexivity.
+  - destruct (is_nil (wire_cookies TWsgi own jar)).
+    + apply ci_get_remove_same.
+    + rewrite ci_get_app, ci_get_remove_same. exact Hsame.
+  - rewrite ci_get_setdefault, Hreq. destruct (is_nil (wire_cookies TAsgi own jar)).
+    + rewrite Hreq. reflexivity.
+    + rewrite ci_get_app, Hreq, Hsame. reflexivity.
+Qed.
+(* nothing else: every header the application receives is the Host header, a default header of the client, a header
+   of the case / of the call / User-Agent / test-case id (prepare_headers), or the Cookie header made of the cookies *)
+Lemma wire_only_expected e t host prep own jar x : In x (wire e t host prep own jar) ->
+  x = (s_host, host) \/ (t <> TWsgi /\ In x (xe_std e)) \/ In x prep \/ x = (s_cookie, render_cookies (wire_cookies t own jar)).
+Proof.
+  assert (Hreq : forall h', In x (ci_setdefault s_host host h') ->
+                 (h' = ci_update (xe_std e) prep \/ h' = ci_update (xe_std e) prep ++ [(s_cookie, render_cookies (wire_cookies t own jar))]) ->
+                 t <> TWsgi ->
+                 x = (s_host, host) \/ (t <> TWsgi /\ In x (xe_std e)) \/ In x prep \/ x = (s_cookie, render_cookies (wire_cookies t own jar))).
+  { intros h' H Hh Ht. destruct (ci_setdefault_In _ _ _ _ H) as [A | A]; [tauto|].
+    assert (B : In x (ci_update (xe_std e) prep) \/ x = (s_cookie, render_cookies (wire_cookies t own jar))).
+    { destruct Hh as [-> | ->]; [tauto|]. apply in_app_or in A. destruct A as [A | [A | []]]; [tauto | right; symmetry; exact A]. }
+    destruct B as [B | B]; [|tauto]. destruct (ci_update_In _ _ _ B); tauto. }
+  destruct t; unfold wire; intros H.
+  - apply (Hreq _ H); [|discriminate].
+    destruct (ci_get s_cookie (ci_update (xe_std e) prep)); [tauto|]. destruct (is_nil (wire_cookies TRequests own jar)); tauto.
+  - assert (B : In x (ci_remove s_cookie (ci_update [(s_host, host)] prep)) \/ x = (s_cookie, render_cookies (wire_cookies TWsgi own jar))).
+    { destruct (is_nil (wire_cookies TWsgi own jar)); [tauto|]. apply in_app_or in H. destruct H as [H | [H | []]]; [tauto | right; symmetry; exact H]. }
+    destruct B as [B | B]; [|tauto]. apply ci_remove_In in B. destruct (ci_update_In _ _ _ B) as [C | [C | []]]; [tauto | left; symmetry; exact C].
+  - apply (Hreq _ H); [|discriminate].
+    destruct (ci_get s_cookie (ci_update (xe_std e) prep)); [tauto|]. destruct (is_nil (wire_cookies TAsgi own jar)); tauto.
+Qed.
+
+(* THE PROPERTY for an exchange without a session object of the user, after ANY history: the Cookie header is made of the
+   cookies of the case (and of the call) and of nothing else; every other header has one of the four allowed origins.
+   Region: the case brings no Cookie header of its own (finding F13 otherwise), its cookies are a dict. *)
+Lemma exchange_carries_the_case e js h t c r :
+  no_cookie_header e c = true -> std_has_no_cookie e = true -> dict_ok (xc_cookies c) = true ->
+  let got := snd (xstep fresh_clients e (xexec fresh_clients e js h) (XSend t None c r)) in
+  ci_get s_cookie got = cookie_header_of (xown c)
+  /\ forall x, In x got ->
+       x = (s_host, xe_host e t false) \/ (t <> TWsgi /\ In x (xe_std e)) \/ In x (xprep e c) \/ x = (s_cookie, render_cookies (xown c)).
+Proof.
+  intros H1 H2 H3. cbv zeta. rewrite exchange_alone by (left; reflexivity). unfold xalone, xreq.
+  unfold no_cookie_header in H1. unfold std_has_no_cookie in H2.
+  destruct (ci_get s_cookie (xprep e c)) eqn:E1; [discriminate|]. destruct (ci_get s_cookie (xe_std e)) eqn:E2; [discriminate|].
+  split.
+  - rewrite (wire_cookie_lookup e t _ _ _ _ E1 E2), (wire_cookies_alone t c H3). reflexivity.
+  - intros x Hx. apply wire_only_expected in Hx. rewrite (wire_cookies_alone t c H3) in Hx. exact Hx.
+Qed.
+
+(* ---- where the cookies of ANY exchange come from, any client rule, sessions of the user included *)
+Lemma d_set_In {V} (x : str * V) k v d : In x (d_set k v d) -> x = (k, v) \/ In x d.
+Proof.
+  induction d as [|[k0 v0] d IH]; cbn [d_set In].
+  - intros [H | []]. left. symmetry. exact H.
+  - destruct (str_eqb k k0) eqn:E; cbn [In].
+    + apply str_eqb_spec in E. subst k0. intros [H | H]; [left; symmetry; exact H | tauto].
+    + intros [H | H]; [tauto|]. destruct (IH H); tauto.
+Qed.
+Lemma d_update_In {V} (x : str * V) new d : In x (d_update d new) -> In x new \/ In x d.
+Proof.
+  revert d. induction new as [|[k v] new IH]; intros d H; [tauto|].
+  unfold d_update in H. cbn [fold_left fst snd] in H. change (fold_left _ new ?y) with (d_update y new) in H.
+  destruct (IH _ H) as [A | A]; [left; right; exact A|]. destruct (d_set_In _ _ _ _ A) as [B | B]; [left; left; symmetry; exact B | tauto].
+Qed.
+Lemma d_pop_In {V} (x : str * V) k d : In x (d_pop k d) -> In x d.
+Proof.
+  induction d as [|[k0 v0] d IH]; cbn [d_pop In]; [tauto|]. destruct (str_eqb k k0); cbn [In]; [tauto|]. intros [H | H]; [tauto | right; apply IH; exact H].
+Qed.
+Lemma d_remove_keys_In {V} (x : str * V) ks : forall d, In x (d_remove_keys ks d) -> In x d.
+Proof. induction ks as [|k ks IH]; intros d H; [exact H|]. cbn [d_remove_keys] in H. apply IH in H. apply d_pop_In in H. exact H. Qed.
+
+Lemma wire_cookies_In t own jar p : In p (wire_cookies t own jar) -> In p own \/ In p jar.
+Proof. destruct t; cbn [wire_cookies]; intros H; try (apply in_app_or in H; tauto). apply d_update_In in H. tauto. Qed.
+Lemma jar_after_In t jar own set p : In p (jar_after t jar own set) -> In p jar \/ In p own \/ In p set.
+Proof.
+  destruct t; cbn [jar_after]; intros H; try (apply d_update_In in H; tauto).
+  apply d_remove_keys_In in H. apply d_update_In in H. destruct H as [H | H]; [tauto|]. apply d_update_In in H. tauto.
+Qed.
+(* a cookie pair in the jar of a client object was put there by an exchange through that object: a Set-Cookie of its
+   answer, or (werkzeug) a cookie of its case *)
+Lemma jar_provenance rule e k p h : forall js, In p (jar_get k (xexec rule e js h)) ->
+  In p (jar_get k js) \/ exists ev', In ev' h /\ xslot rule ev' = Some k /\ (In p (xr_set (xresp_of ev')) \/ In p (xown_of ev')).
+Proof.
+  induction h as [|ev h IH]; intros js H; [left; exact H|]. cbn [xexec] in H. destruct (IH _ H) as [A | [ev' [A1 A2]]].
+  - unfold xstep in A. destruct (xslot rule ev) as [k'|] eqn:E; cbn [fst] in A; [|tauto].
+    rewrite jar_get_put in A. destruct (slot_eqb k k') eqn:E2; [|tauto]. apply slot_eqb_eq in E2. subst k'.
+    assert (B : In p (jar_get k js) \/ In p (xown_of ev) \/ In p (xr_set (xresp_of ev))).
+    { destruct ev as [t r | t s c r]; cbn [xjar_after xown_of xresp_of] in *; apply jar_after_In in A; cbn [In] in A; tauto. }
+    destruct B as [B | B]; [tauto|]. right. exists ev. split; [left; reflexivity|]. split; [exact E | tauto].
+  - right. exists ev'. split; [right; exact A1 | exact A2].
+Qed.
+Lemma exchange_cookie_provenance rule e h ev p : In p (xcookies_sent rule ev (xexec rule e [] h)) ->
+  In p (xown_of ev) \/ exists ev', In ev' h /\ same_slot rule ev ev' = true /\ (In p (xr_set (xresp_of ev')) \/ In p (xown_of ev')).
+Proof.
+  intros H.
+  assert (B : In p (xown_of ev) \/ exists k, xslot rule ev = Some k /\ In p (jar_get k (xexec rule e [] h))).
+  { destruct ev as [t r | t s c r]; cbn [xcookies_sent xown_of] in *; apply wire_cookies_In in H; destruct H as [H | H]; try tauto;
+      (destruct (xslot rule _) as [k|] eqn:E; [right; exists k; split; [reflexivity | exact H] | destruct H]). }
+  destruct B as [B | [k [K B]]]; [tauto|]. right. destruct (jar_provenance rule e k p h [] B) as [[] | [ev' [A1 [A2 A3]]]].
+  exists ev'. split; [exact A1|]. split; [|exact A3]. unfold same_slot. rewrite K, A2. apply slot_eqb_refl.
+Qed.
+
+(* ---- witnesses *)
+Definition x_localhost : str := [108;111;99;97;108;104;111;115;116].
+Definition x_sess : str := [115;101;115;115].
+Definition x_S1 : str := [83;49].
+Definition x_token : str := [116;111;107;101;110].
+Definition x_t : str := [116].
+Definition x_h1 : str := [104;61;49].                         (* h=1 *)
+Definition x_sess_S1 : str := x_sess ++ [61] ++ x_S1.           (* sess=S1 *)
+Definition x_token_t : str := x_token ++ [61] ++ x_t.           (* token=t *)
+Definition xenv0 : xenv :=
+  {| xe_std := [([65;99;99;101;112;116], [42;47;42])]; xe_ua := [115;116]; xe_host := fun _ _ => x_localhost |}.
+Definition xcase0 : xcase := {| xc_headers := None; xc_cookies := None; xc_call_headers := None; xc_call_cookies := None; xc_id := [73;68] |}.
+Definition xcase_cookie (h : option headers) (cs : option cookies) : xcase :=
+  {| xc_headers := h; xc_cookies := cs; xc_call_headers := None; xc_call_cookies := None; xc_id := [73;68] |}.
+Definition xquiet : xresp := {| xr_set := []; xr_redirect := false; xr_close := false |}.
+Definition xsets : xresp := {| xr_set := [(x_sess, x_S1)]; xr_redirect := true; xr_close := true |}.
+
+(* SENTINEL for the seeded regression C06_d: one werkzeug client per application (shared_wsgi_client) sends the cookie
+   that the application set in an EARLIER exchange - a send or the loading of the schema - with a case that has no cookie;
+   under the rule of the code (fresh_clients) the second request is the one of the case alone *)
+Lemma shared_client_sentinel_refuted :
+  let send1 := XSend TWsgi None xcase0 xsets in
+  let send2 := XSend TWsgi None xcase0 xquiet in
+  map (ci_get s_cookie) (xrun shared_wsgi_client xenv0 [] [send1; send2]) = [None; Some x_sess_S1]
+  /\ map (ci_get s_cookie) (xrun shared_wsgi_client xenv0 [] [XLoad TWsgi xsets; send2]) = [None; Some x_sess_S1]
+  /\ xrun shared_wsgi_client xenv0 [] [send1; send2] <> map (xalone xenv0) [send1; send2]
+  /\ xrun fresh_clients xenv0 [] [send1; send2] = map (xalone xenv0) [send1; send2]
+  /\ map (ci_get s_cookie) (xrun fresh_clients xenv0 [] [XLoad TWsgi xsets; send2]) = [None; None]
+  /\ no_cookie_header xenv0 xcase0 = true /\ cookie_header_of (xown xcase0) = None.
+Proof. cbv zeta. repeat split; try (vm_compute; reflexivity). vm_compute. discriminate. Qed.
+
+(* finding C06-F13: a case that has a Cookie header of its own.  WSGI: the header is not delivered (werkzeug rebuilds
+   HTTP_COOKIE from the jar of its client); requests / ASGI: the header is delivered and the cookies of the case are not *)
+Lemma cookie_header_refuted :
+  let c1 := xcase_cookie (Some [(s_cookie, x_h1)]) None in
+  let c2 := xcase_cookie (Some [(s_cookie, x_h1)]) (Some [(x_token, x_t)]) in
+  no_cookie_header xenv0 c1 = false /\ ci_get s_cookie (xprep xenv0 c1) = Some x_h1
+  /\ ci_get s_cookie (xalone xenv0 (XSend TWsgi None c1 xquiet)) = None
+  /\ cookie_header_of (xown c2) = Some x_token_t
+  /\ ci_get s_cookie (xalone xenv0 (XSend TRequests None c2 xquiet)) = Some x_h1
+  /\ ci_get s_cookie (xalone xenv0 (XSend TAsgi None c2 xquiet)) = Some x_h1
+  /\ ci_get s_cookie (xalone xenv0 (XSend TWsgi None c2 xquiet)) = Some x_token_t.
+Proof. cbv zeta. repeat split; vm_compute; reflexivity. Qed.
+
+(* non-vacuity: a case with a cookie inside the region, after a history whose answers set cookies; a session object
+   of the user DOES carry the cookie to the next exchange through it, and only through it *)
+Example exchange_nonvacuous :
+  let c := xcase_cookie (Some [([88;45;65], [49])]) (Some [(x_token, x_t)]) in
+  no_cookie_header xenv0 c = true /\ std_has_no_cookie xenv0 = true /\ dict_ok (xc_cookies c) = true
+  /\ map (ci_get s_cookie) (xrun fresh_clients xenv0 [] [XSend TWsgi None xcase0 xsets; XLoad TWsgi xsets; XSend TWsgi None c xquiet])
+     = [None; None; Some x_token_t]
+  /\ map (ci_get s_cookie) (xrun fresh_clients xenv0 []
+       [XSend TWsgi (Some 0) xcase0 xsets; XSend TWsgi None xcase0 xquiet; XSend TWsgi (Some 1) xcase0 xquiet; XSend TRequests (Some 0) xcase0 xquiet;
+        XSend TAsgi (Some 0) xcase0 xquiet; XSend TWsgi (Some 0) c xquiet])
+     = [None; None; None; None; None; Some (x_sess_S1 ++ [59;32] ++ x_token_t)]
+  /\ filter (same_slot fresh_clients (XSend TWsgi (Some 0) c xquiet))
+       [XSend TWsgi (Some 0) xcase0 xsets; XSend TWsgi None xcase0 xquiet; XSend TWsgi (Some 1) xcase0 xquiet; XSend TRequests (Some 0) xcase0 xquiet]
+     = [XSend TWsgi (Some 0) xcase0 xsets].
+Proof. cbv zeta. repeat split; vm_compute; reflexivity. Qed.
